@@ -19,7 +19,7 @@ import (
 //                         positions only. Otherwise `type T [2]T` is accepted and later passes recurse without end.
 
 func c08Extra(c *Ctx) {
-	p := c.Load(LoadOpt{Light: true}, "./internal/parser", "./internal/parser/w2parser", "./internal/scanner", "./internal/wat/parser", "./internal/wat/scanner", "./internal/native/parser", "./internal/native/scanner", "./internal/types")
+	p := c.Load(LoadOpt{Light: true}, "./internal/printer", "./internal/printer/w2printer", "./internal/parser", "./internal/parser/w2parser", "./internal/scanner", "./internal/wat/parser", "./internal/wat/scanner", "./internal/native/parser", "./internal/native/scanner", "./internal/types")
 	n := 0
 	for rel, pk := range p.All {
 		if strings.HasSuffix(rel, "internal/types") {
@@ -28,6 +28,8 @@ func c08Extra(c *Ctx) {
 		n += c08ArrayBounds(c, p, pk)
 	}
 	c.Min("fixed-array-bound", "guarded fixed-array index sites in the front ends", n, 2)
+	c08SpecNames(c, p, p.Pkg("internal/parser"), p.Pkg("internal/parser/w2parser"))
+	c08ReceiverNames(c, p, p.Pkg("internal/printer"), p.Pkg("internal/printer/w2printer"))
 	nf := 0
 	for _, rel := range []string{"internal/scanner", "internal/wat/scanner", "internal/native/scanner"} {
 		if pk := p.MustPkg("offset-frame", rel); pk != nil {
